@@ -1,3 +1,4 @@
+#include <stdexcept>
 // Engine `enc`: properties C01 C07 C08 (small-scope input enumeration over batches x contexts) and
 // C09 C10 (history trees over copied real Encoder objects).  See DESIGN.md section 4.
 #include <asam_cmp/analog_payload.h>
@@ -912,6 +913,30 @@ static CaseSpec encodeArg(int k)
     return c;
 }
 
+// An input range whose element access fails at a given position: the environment answer "the caller's packet source threw" (or an
+// allocation failed) in the middle of an encode call. The aborted call returns nothing; the encoder must be usable afterwards.
+struct ThrowingIt
+{
+    using iterator_category = std::forward_iterator_tag;
+    using value_type = Packet;
+    using difference_type = std::ptrdiff_t;
+    using pointer = const Packet*;
+    using reference = const Packet&;
+    const Packet* base = nullptr;
+    size_t i = 0, throwAt = 0;
+    reference operator*() const
+    {
+        if (i == throwAt)
+            throw std::runtime_error("packet source failed");
+        return base[i];
+    }
+    pointer operator->() const { return &**this; }
+    ThrowingIt& operator++() { ++i; return *this; }
+    ThrowingIt operator++(int) { ThrowingIt t = *this; ++i; return t; }
+    bool operator==(const ThrowingIt& o) const { return i == o.i; }
+    bool operator!=(const ThrowingIt& o) const { return i != o.i; }
+};
+
 struct HistState
 {
     Encoder enc;
@@ -934,6 +959,23 @@ static std::vector<Bytes> applyOp(W& w, HistState& s, const EncOp& o, bool judge
         case 'D': s.enc.setDeviceId((uint16_t) o.arg); s.dev = (uint16_t) o.arg; s.cm.reset(); break;
         case 'S': s.enc.setStreamId((uint8_t) o.arg); s.str = (uint8_t) o.arg; s.cm.reset(); break;
         case 'R': s.enc.restart(); s.cm.reset(); break;
+        case 'X':
+        {
+            // encode(E<arg>) aborted by an exception from the packet source after the first packet (C10's fault round only: frames
+            // of an aborted call are never seen, so C09's counter model does not apply)
+            CaseSpec c = encodeArg(o.arg);
+            Built b = build(c);
+            ThrowingIt first{b.packets.data(), 0, 1}, last{b.packets.data(), b.packets.size() + 1, 1};
+            try
+            {
+                s.enc.encode(first, last, DataContext{c.mn, c.mx});
+                w.fail("aborted-call:no-exception", "the packet source threw, encode() returned normally");
+            }
+            catch (const std::runtime_error&)
+            {
+            }
+            break;
+        }
         case 'E':
         {
             CaseSpec c = encodeArg(o.arg);
@@ -1337,6 +1379,29 @@ int main(int argc, char** argv)
             });
             if (run.out_of_time())
                 break;
+        }
+        // fault injection: an earlier call that was aborted by an exception (thrown by the caller's packet source after the first packet
+        // had been put into a frame) leaves nothing behind either
+        {
+            static const char* kAborted[] = {"X5", "X1", "X2", "X3", "E1,X5", "X5,X5", "E2,X1", "X5,E0", "D1,X5", "X5,S7", "XD", "X5,R"};
+            run.round("histories with an encode call aborted by an exception from the packet source x all finals", sizeof(kAborted) / sizeof(kAborted[0]), [&](W& w, uint64_t o) {
+                HistState s;
+                W silent;
+                silent.single = true;
+                for (auto& op : parseHist(kAborted[o]))
+                    applyOp(silent, s, op, false);
+                for (int fin = 0; fin < 14; ++fin)
+                {
+                    auto desc = [&] { return fmt("h=%s;f=%d", kAborted[o], fin); };
+                    if (!w.begin_case(desc))
+                        continue;
+                    HistState n = s;
+                    compareC10(w, n, fin);
+                    w.add(mc::C_TRANS, 2);
+                    w.add(mc::C_TRACES, 1);
+                }
+                w.add(mc::C_STATES, 1);
+            });
         }
         // histories long enough to bring the 16-bit frame counter to its wrap / sign boundary: every final then straddles it
         {
